@@ -15,6 +15,7 @@ import numpy as np
 from vfw.core import CellResult, HarnessError, close
 from vfw import refs
 from vfw.stream import Stream
+from checks import _c10_producers as PR
 
 PROPERTY = "C10"
 RULE = ("cells = (pair family x parametrisation x dimension/geometry x interface) for supported pairs, "
@@ -173,6 +174,18 @@ NAME_CLASS = {"gauss": "Gaussian", "gmrf": "GMRF", "lmrf": "LMRF"}
 NAME_BUILDS = ["joint(h,y)", "joint(y,h)", "posterior(lik,h)", "joint(w,h,y)"]
 NAME_PRIORS = [(0.5, 1e-4), (3.0, 2.0)]
 
+# how the callable was produced x process history (see _c10_producers): (pair, parameter) -> unsupported siblings
+#   (c, p, e) of  c / s**p + e  (cov, scale)  resp.  c * s**p + e  (prec); names = the members' names in UNSUPPORTED
+PROD_FAMS = [("gauss", "cov"), ("gauss", "prec"), ("gmrf", "prec"), ("reg-gauss", "cov"), ("lmrf", "scale")]
+PROD_SIBLINGS = {
+    ("gauss", "cov"): [("cov=1/s**2", (1, 2, 0)), ("cov=s", (1, -1, 0)), ("cov=1/s+1", (1, 1, 1))],
+    ("gauss", "prec"): [("prec=s**2", (1, 2, 0)), ("prec=2*s", (2, 1, 0)), ("prec=s+1", (1, 1, 1))],
+    ("gmrf", "prec"): [("gmrf-prec=d**2", (1, 2, 0)), ("gmrf-prec=1/d", (1, -1, 0)), ("gmrf-prec=2*d", (2, 1, 0))],
+    ("reg-gauss", "cov"): [("cov=1/s**2", (1, 2, 0)), ("cov=s", (1, -1, 0)), ("cov=1/s+1", (1, 1, 1))],
+    ("lmrf", "scale"): [("scale=1/s**2", (1, 2, 0)), ("scale=s", (1, -1, 0)), ("scale=1/s+1", (1, 1, 1))],
+}
+PROD_HISTORIES = ["fresh", "after-accepted-sibling", "after-refused-sibling"]
+
 DIRECT = ["gauss-scalar-cov", "gauss-full-cov", "gauss-prec", "gauss-sqrtcov", "gauss-sqrtprec", "gmrf-zero",
           "gamma", "gamma-vector", "laplace", "normal", "lognormal", "uniform-1d"]
 
@@ -212,6 +225,13 @@ def cells(tier, seed):
     for (fam, key) in NEAR_FAMS:
         for form in NEAR_FORMS:
             yield {"kind": "near", "iface": "exp", "fam": fam, "key": key, "form": form, "cat": k, "dexp": NEAR_DEXP[tier]}
+    for iface in IFACES:
+        for (fam, key) in PROD_FAMS:
+            if iface == "legacy" and fam not in ("gauss", "gmrf"):
+                continue                                  # Regularized* / LMRF pairs: stateful interface only
+            for producer in PR.PRODUCERS:
+                yield {"kind": "producer", "iface": iface, "fam": fam, "key": key, "producer": producer, "cat": k,
+                       "dims": [3] if quick else [2, 3], "priors": NEAR_PRIORS[1:] if quick else NEAR_PRIORS}
     for fam in DIRECT:
         yield {"kind": "direct", "fam": fam, "cat": k, "n": 3 if quick else 5}
 
